@@ -131,7 +131,7 @@ Fixpoint check_round (w : world) (clients : list ckind) (h : hist) (rd rest : li
          (obs : list reply) (i : nat) : list nat :=
   match rest, obs with
   | cr :: r, o :: os =>
-      let s := spec w clients cr in
+      let s := fixed_reply w clients cr in
       (if sat_reply (is_ws cr) s o then [] else [classify w clients h rd i cr s o]) ++
       check_round w clients h rd r os (S i)
   | [], [] => []
